@@ -137,13 +137,11 @@ Definition Rops : FloatOps R := RopsC (fun _ _ => VErr Unsupported).
 Ltac ideal_cbv :=
   cbv -[Rplus Rminus Rmult Rdiv Rinv Ropp Rabs sqrt sin cos tan asin acos atan atan2 exp ln
         Rpower powerRZ Rpow PI IZR Rltb Rleb Reqb Rfloor Rtrunc Rfmod Rround Rround_nd Rlit
-        pow10 is_int Z.add Z.sub Z.mul Z.div Z.modulo Z.pow Z.opp Z.abs Z.eqb Z.ltb Z.leb
-        Z.of_nat Z.to_nat].
+        pow10 is_int].
 Ltac ideal_cbv_in H :=
   cbv -[Rplus Rminus Rmult Rdiv Rinv Ropp Rabs sqrt sin cos tan asin acos atan atan2 exp ln
         Rpower powerRZ Rpow PI IZR Rltb Rleb Reqb Rfloor Rtrunc Rfmod Rround Rround_nd Rlit
-        pow10 is_int Z.add Z.sub Z.mul Z.div Z.modulo Z.pow Z.opp Z.abs Z.eqb Z.ltb Z.leb
-        Z.of_nat Z.to_nat] in H.
+        pow10 is_int] in H.
 
 (* literals: Rlit m e as a plain rational *)
 Lemma Rlit_nonneg m e : (0 <= e)%Z -> Rlit m e = IZR (m * 10 ^ e).
